@@ -17,6 +17,7 @@ import (
 	"github.com/nginx/kubernetes-ingress/pkg/apis/configuration/validation"
 	api_v1 "k8s.io/api/core/v1"
 	discovery_v1 "k8s.io/api/discovery/v1"
+	networking "k8s.io/api/networking/v1"
 	"k8s.io/client-go/tools/cache"
 )
 
@@ -69,4 +70,14 @@ func (v *VerifC09) AddPod(p *api_v1.Pod) error                   { return v.pods
 // CreateVirtualServerEx is the real createVirtualServerEx.
 func (v *VerifC09) CreateVirtualServerEx(vs *conf_v1.VirtualServer, vsrs []*conf_v1.VirtualServerRoute) *configs.VirtualServerEx {
 	return v.lbc.createVirtualServerEx(vs, vsrs)
+}
+
+// CreateIngressEx is the real createIngressEx.
+func (v *VerifC09) CreateIngressEx(ing *networking.Ingress, validHosts map[string]bool) *configs.IngressEx {
+	return v.lbc.createIngressEx(ing, validHosts, nil)
+}
+
+// CreateTransportServerEx is the real createTransportServerEx.
+func (v *VerifC09) CreateTransportServerEx(ts *conf_v1.TransportServer, listenerPort int) *configs.TransportServerEx {
+	return v.lbc.createTransportServerEx(ts, listenerPort, "", "")
 }
